@@ -32,6 +32,7 @@ type Unit struct {
 	Ensures  []Clause
 	Modifies []string // raw items; nil = inferred; "nothing"
 	HasMod   bool
+	ModInferred bool // modifies = the inferred write set of the body, plus the listed items
 	Loops    map[int]*LoopSpec
 	Opts     map[string]bool // e.g. "noinfer", "arith", "nosafety"
 	File     string
@@ -154,6 +155,9 @@ func (c *Contracts) ParseFile(path, pkgPath string) error {
 		if err != nil {
 			return Clause{}, fmt.Errorf("%s:%d: %v", path, r.line, err)
 		}
+		if strings.HasPrefix(name, "def_") {
+			c.Scan = append(c.Scan, fmt.Sprintf("%s:%d: definitional ghost effect (assumed at call sites, not checked in the body): %s", filepath.Base(path), r.line, text))
+		}
 		return Clause{Text: text, E: e, Name: name}, nil
 	}
 	for _, r := range raws {
@@ -232,6 +236,10 @@ func (c *Contracts) ParseFile(path, pkgPath string) error {
 			cur.HasMod = true
 			for _, it := range splitTop(r.text) {
 				it = strings.TrimSpace(it)
+				if it == "inferred" {
+					cur.ModInferred = true
+					continue
+				}
 				if it != "" && it != "nothing" {
 					cur.Modifies = append(cur.Modifies, it)
 				}
